@@ -66,6 +66,7 @@ def _dyadic(draw, tier):
     c["threshold"] = draw(st.sampled_from([0.0, 0.5, 1.0]))
     c["compiled"] = draw(st.booleans())
     c["int_times"] = draw(st.booleans())
+    c["reconcile_off"] = draw(st.sampled_from([False, False, True]))
     return c
 
 
@@ -176,6 +177,8 @@ def run_case(case, ctx):
             kw["interval"] = iv
         if name in takes_normalize:
             kw["normalize"] = bool(case["normalize"])
+        if case.get("reconcile_off"):
+            kw["Reconcile"] = False       # the input is valid as it stands
         forms = []
         if kind in ("pair", "generic"):
             forms.append(("pair", (sts[0], sts[1])))
